@@ -42,8 +42,8 @@ def K(text, *flags):
 IDS_COMMON = ['a', 'b', 'c', 'x', 'y', 'f', 'g', 'i', 'n']
 IDS_ODD = ['$', '_', '$x', 'x$', '_y', 'a1', 'A', 'Zz', 'get', 'set', 'inx', 'newton', 'ins', 'iff', 'dof',
            'of', 'let', 'yield', 'static', 'undefined', 'arguments', 'eval', 'typeofx', 'thisx', 'nulls',
-           u'é', u'Ω', u'д', u'日本', u'aé', u'x̀', u'a‿b', u'x٣',
-           u'ñ', 'in1', 'var_', 'q2w3']
+           u'\u00e9', u'\u03a9', u'\u0434', u'\u65e5\u672c', u'a\u00e9', u'x\u0300', u'a\u203fb', u'x\u0663',
+           u'\u00f1', 'in1', 'var_', 'q2w3']
 LABELS = ['L', 'M', 'loop', 'outer', 'a', 'x']
 PROP_RESERVED = ['return', 'in', 'if', 'new', 'class', 'null', 'true', 'this', 'function', 'typeof', 'do',
                  'default', 'delete', 'get', 'set', 'var', 'else', 'for', 'instanceof', 'void', 'enum']
@@ -53,7 +53,7 @@ NUMS_ODD = ['1.5', '0.5', '.5', '1.', '0.', '1e3', '1E3', '1e+3', '1e-3', '1.5e1
             '0XAB', '0x0', '017', '00', '07', '123456789012345678901234567890', '0.000001', '5e0']
 STRS_COMMON = ['"s"', "'s'", '""', "''", '"a b"', "'use strict'"]
 STRS_ODD = ['"\\n"', "'\\''", '"\\""', '"\\\\"', "'\\x41'", '"\\u0041"', "'\\0'", '"\\07"', "'\\101'",
-            '"a\\\nb"', "'a\\\r\nb'", '"a\\\rb"', u'"a\\ b"', u'"é"', u'"日本"', '"//"', "'/*'", '"*/"',
+            '"a\\\nb"', "'a\\\r\nb'", '"a\\\rb"', u'"a\\ b"', u'"\u00e9"', u'"\u65e5\u672c"', '"//"', "'/*'", '"*/"',
             '"\'"', "'\"'", '"\\b\\f\\r\\t\\v"', "'</script>'", '"\\a\\q"', '"a\\\n"', "';'", '"}"', "'{'"]
 REGEX_COMMON = ['/re/', '/a/g', '/x/i']
 REGEX_ODD = ['/[/]/', '/\\//', '/[\\]]/', '/a/gim', '/=/', '/=a/', '/ /', '/\\\\/', '/[a-z]+/', '/(?:x)/',
@@ -609,13 +609,13 @@ class Gen(object):
 # rendering
 
 WS_SIMPLE = [' ']
-WS_VARIED = [' ', '  ', '\t', ' \t ', '\x0b', '\x0c', u'\xa0', u'﻿', u' ', u'　']
+WS_VARIED = [' ', '  ', '\t', ' \t ', '\x0b', '\x0c', u'\xa0', u'\ufeff', u' ', u'\u3000']
 LT_BASIC = ['\n']
 LT_ALL = ['\n', '\r', '\r\n', u' ', u' ', '\n\n', ' \n  ']
 LT_NO_LSPS = ['\n', '\r', '\r\n', '\n\n', ' \n  ', '\r\n\t']
-COMMENTS_INLINE = ['/*c*/', '/**/', '/* a * b / */', u'/*é*/', '/*//*/']
+COMMENTS_INLINE = ['/*c*/', '/**/', '/* a * b / */', u'/*\u00e9*/', '/*//*/']
 COMMENTS_ML = ['/*c\nc*/', '/*\n*/', '/*\r\n * x\r\n */']
-COMMENTS_LINE = ['//c\n', '//\n', '// a /* b\n', u'//é\r\n', '//x\r']
+COMMENTS_LINE = ['//c\n', '//\n', '// a /* b\n', u'//\u00e9\r\n', '//x\r']
 
 _join_cache = {}
 
@@ -741,18 +741,24 @@ def program_strategy(cfg=None, max_fuel=6, layout_levels=(0, 1, 2, 3), lsps=True
         fuel = draw(st.integers(min_fuel, max_fuel))
         g = Gen(draw, cfg)
         tree, toks = g.program(fuel)
-        level = layout_levels[draw(st.integers(0, len(layout_levels) - 1))]
+        level = layout_levels[draw(st.integers(0, 9999)) % len(layout_levels)]
         # trailing / leading layout
         text, offsets = render(draw, toks, Layout(level, lsps=lsps, comments=comments))
         if level >= 2:
             k = draw(st.integers(0, 9))
+            lead = ''
             if k == 0:
-                text = '\n' + text
+                lead = '\n'
             elif k == 1:
                 text = text + '\n'
             elif k == 2 and comments:
-                text = '/*lead*/' + text + ' //tail'
+                lead = '/*lead*/'
+                text = text + ' //tail'
             elif k == 3:
-                text = u'﻿' + text + '  '
+                lead = u'\ufeff'
+                text = text + '  '
+            if lead:
+                text = lead + text
+                offsets = [(i, off + len(lead)) for i, off in offsets]
         return {'tree': tree, 'toks': toks, 'text': text, 'level': level, 'offsets': offsets}
     return strat()
